@@ -17,6 +17,7 @@ pub mod c27_reconcile;
 pub mod c28_rollback;
 pub mod c29_isolation;
 pub mod c30_objids;
+pub mod c31_anonymize;
 pub mod c32_serde;
 pub mod c38_actorseq;
 pub mod c40_migrate;
@@ -41,6 +42,7 @@ pub fn registry() -> Vec<Box<dyn Check>> {
         Box::new(c28_rollback::C28),
         Box::new(c29_isolation::C29),
         Box::new(c30_objids::C30),
+        Box::new(c31_anonymize::C31),
         Box::new(c32_serde::C32),
         Box::new(c38_actorseq::C38),
         Box::new(c40_migrate::C40),
